@@ -227,19 +227,26 @@ func (m *model) gaps() []gap {
 	return append(out, gap{prev, m.segSize - prev})
 }
 
-// alloc places size bytes in the first gap that holds them.
+// alloc places size bytes in the first gap that holds them. hole reports
+// that the gap used was not the tail gap.
 func (m *model) alloc(size int64) (off uint64, ok bool, hole bool) {
 	if size <= 0 || len(m.t) >= maxEntries {
 		return 0, false, false
 	}
-	gs := m.gaps()
-	for i, g := range gs {
-		if g.size >= uint64(size) {
+	sz := uint64(size)
+	prev := uint64(hdrSize)
+	for i, e := range m.t {
+		if e[0]-prev >= sz {
 			m.t = append(m.t, [2]uint64{})
 			copy(m.t[i+1:], m.t[i:])
-			m.t[i] = [2]uint64{g.off, uint64(size)}
-			return g.off, true, i < len(gs)-1
+			m.t[i] = [2]uint64{prev, sz}
+			return prev, true, true
 		}
+		prev = e[0] + e[1]
+	}
+	if m.segSize-prev >= sz {
+		m.t = append(m.t, [2]uint64{prev, sz})
+		return prev, true, false
 	}
 	return 0, false, false
 }
@@ -249,12 +256,14 @@ func (m *model) fits(size int64) bool {
 	if size <= 0 {
 		return false
 	}
-	for _, g := range m.gaps() {
-		if g.size >= uint64(size) {
+	prev := uint64(hdrSize)
+	for _, e := range m.t {
+		if e[0]-prev >= uint64(size) {
 			return true
 		}
+		prev = e[0] + e[1]
 	}
-	return false
+	return m.segSize-prev >= uint64(size)
 }
 
 // free removes the entry starting exactly at off.
